@@ -42,6 +42,9 @@ pub struct Spec {
     pub form: ArgvForm,
     pub colour: Colour,
     pub path_abs: bool,
+    /// How the file is named on the command line: plain | abs | dot (`./p.g`) | symlink (a link of
+    /// the same length next to the file) | updown (`s/../p.g`). Fixed within a group.
+    pub path_form: String,
     pub file_name: String,
     pub family: String,
     pub source: Vec<u8>,
@@ -66,6 +69,7 @@ impl Spec {
             "form": self.form.name(),
             "colour": self.colour.name(),
             "path_abs": self.path_abs,
+            "path_form": self.path_form,
             "file_name": self.file_name,
             "family": self.family,
             "source": String::from_utf8_lossy(&self.source),
@@ -89,6 +93,10 @@ impl Spec {
             form: ArgvForm::from_name(v.get("form")?.as_str()?),
             colour: Colour::from_name(v.get("colour")?.as_str()?),
             path_abs: v.get("path_abs")?.as_bool()?,
+            path_form: v
+                .get("path_form")
+                .and_then(Value::as_str)
+                .map_or_else(|| if v.get("path_abs").and_then(Value::as_bool).unwrap_or(false) { "abs" } else { "plain" }.to_owned(), str::to_owned),
             file_name: v.get("file_name")?.as_str()?.to_owned(),
             family: v.get("family").and_then(Value::as_str).unwrap_or("replay").to_owned(),
             source,
@@ -243,7 +251,14 @@ pub fn derive_spec(seed: u64, tier: Tier, idx: usize, corpus: &[String], shape: 
         2 => Colour::Force,
         _ => Colour::Unset,
     };
-    let path_abs = rng.chance(1, 3);
+    let path_form = match rng.below(12) {
+        0..=5 => "plain",
+        6..=8 => "abs",
+        9 => "dot",
+        10 => "symlink",
+        _ => "updown",
+    };
+    let path_abs = path_form == "abs";
     let plans = derive_plans(&mut rng, tier, shape.plans);
     let launcher = if tier == Tier::Exec && rng.chance(4, 5) { "fork" } else { "exec" };
     let mode = if tier == Tier::InProc && rng.chance(2, 5) { "main" } else { "stages" };
@@ -259,6 +274,7 @@ pub fn derive_spec(seed: u64, tier: Tier, idx: usize, corpus: &[String], shape: 
         form,
         colour,
         path_abs,
+        path_form: path_form.to_owned(),
         file_name: format!("p{idx}.g"),
         family,
         source,
@@ -500,13 +516,30 @@ pub fn run_spec(spec: &Spec, envs: &Envs, scratch_tag: &str, stop_at_first: bool
         mirror_mismatches: 0,
     };
     let dir = envs.work.join(scratch_tag);
-    let path_arg = if spec.path_abs {
-        dir.join(&spec.file_name).to_string_lossy().into_owned()
-    } else {
-        spec.file_name.clone()
+    let link_name = format!("q{}", &spec.file_name[1.min(spec.file_name.len())..]);
+    let path_arg = match spec.path_form.as_str() {
+        "abs" => dir.join(&spec.file_name).to_string_lossy().into_owned(),
+        "dot" => format!("./{}", spec.file_name),
+        "symlink" => link_name.clone(),
+        "updown" => format!("s/../{}", spec.file_name),
+        _ => spec.file_name.clone(),
+    };
+    // the file-system furniture the path form needs (only where a real file is opened)
+    let furnish = |dir: &Path| -> std::io::Result<()> {
+        match spec.path_form.as_str() {
+            "symlink" => {
+                let _ = fs::remove_file(dir.join(&link_name));
+                std::os::unix::fs::symlink(&spec.file_name, dir.join(&link_name))
+            }
+            "updown" => fs::create_dir_all(dir.join("s")),
+            _ => Ok(()),
+        }
     };
     if spec.tier == Tier::Exec {
-        if let Err(e) = fs::create_dir_all(&dir).and_then(|()| fs::write(dir.join(&spec.file_name), &spec.source)) {
+        if let Err(e) = fs::create_dir_all(&dir)
+            .and_then(|()| fs::write(dir.join(&spec.file_name), &spec.source))
+            .and_then(|()| furnish(&dir))
+        {
             out.status = "harness_error".to_owned();
             out.note = format!("scratch {dir:?}: {e}");
             return out;
@@ -517,6 +550,7 @@ pub fn run_spec(spec: &Spec, envs: &Envs, scratch_tag: &str, stop_at_first: bool
             // the real `run` reads the file itself; a relative path is resolved against the cwd
             if let Err(e) = fs::create_dir_all(&dir)
                 .and_then(|()| fs::write(dir.join(&spec.file_name), &spec.source))
+                .and_then(|()| furnish(&dir))
                 .and_then(|()| std::env::set_current_dir(&dir))
             {
                 out.status = "harness_error".to_owned();
